@@ -577,7 +577,7 @@ def gen_facade(mods):
 def gen_misc(mods):
     from translate import HEADER, coq_str, const_int, src_of
     lines = [HEADER.format(src="scsi_command.py (init_cdb), scsi.py (attach table), iscsi_device.py (status dispatch)",
-                           extra=" Model.Command Model.Enum Model.Exec Gen.Tables")]
+                           extra=" Model.Command Model.Enum Model.Exec Model.Device Gen.Tables")]
     info = {}
     unknown = []
     # ---- SCSICommand.init_cdb: if lo <= opcode.value <= hi: cdb = bytearray(n) | raise ... else: raise
@@ -665,6 +665,16 @@ def gen_misc(mods):
     lines.append("Definition sgio_cc_handler : list gact := [%s].\n" % "; ".join(handler))
     info["iscsi_prog"] = [[n, acts] for n, acts in prog]
     info["sgio_handler"] = handler
+    # ---- SCSIDevice replug handling
+    rl, runk, rinfo = replug_tables(mods)
+    lines += rl
+    unknown += runk
+    info["replug"] = rinfo
+    # ---- init_device prefix dispatch and the constructor guards of the two device classes
+    idl, idunk, idinfo = init_device_tables(mods)
+    lines += idl
+    unknown += idunk
+    info["init_device"] = idinfo
     # ---- SCSICheckCondition.__init__ / __str__ / _describe_ascq
     sinfo, slines, sunk = sense_class(mods)
     lines += slines
@@ -673,6 +683,182 @@ def gen_misc(mods):
     lines.append("Definition unknown_misc : list string := [" + "; ".join(coq_str(u) for u in unknown) + "].\n")
     info["unknown"] = unknown
     return "\n".join(lines), info
+
+
+def replug_tables(mods):
+    """the shape of SCSIDevice.execute's replug prologue, _is_replugged, open, close, __exit__"""
+    from translate import src_of
+    mod = next(m for m in mods if m.stem == "scsi_device")
+    cls = next((n for n in mod.tree.body if isinstance(n, ast.ClassDef) and n.name == "SCSIDevice"), None)
+    fns = {f.name: f for f in cls.body if isinstance(f, ast.FunctionDef)} if cls else {}
+    unknown, lines, info = [], [], {}
+
+    def body_of(fn):
+        return [st for st in fn.body if not (isinstance(st, ast.Expr) and isinstance(st.value, ast.Constant))]
+
+    def is_call(st, name):
+        return isinstance(st, ast.Expr) and isinstance(st.value, ast.Call) and dotted(st.value.func) == name and not st.value.args
+    kind = "PUnknown"
+    ex = fns.get("execute")
+    if ex:
+        b = body_of(ex)
+        pro = b[:-1]          # everything before the final try: sgio.execute(...)
+        if not pro:
+            kind = "PNone"
+        elif len(pro) == 1 and isinstance(pro[0], ast.If) and not pro[0].orelse:
+            t = pro[0].test
+            cond_ok = (isinstance(t, ast.BoolOp) and isinstance(t.op, ast.And) and len(t.values) == 2
+                       and dotted(t.values[0]) == "self._detect_replugged" and isinstance(t.values[1], ast.Call)
+                       and dotted(t.values[1].func) == "self._is_replugged")
+            ib = pro[0].body
+            if cond_ok and len(ib) == 1 and isinstance(ib[0], ast.Try) and not ib[0].handlers and not ib[0].orelse \
+                    and len(ib[0].body) == 1 and is_call(ib[0].body[0], "self.close") \
+                    and len(ib[0].finalbody) == 1 and is_call(ib[0].finalbody[0], "self.open"):
+                kind = "PTryCloseFinallyOpen"
+            elif cond_ok and len(ib) == 2 and is_call(ib[0], "self.close") and is_call(ib[1], "self.open"):
+                kind = "PCloseOpen"
+            elif cond_ok and len(ib) == 1 and is_call(ib[0], "self.open"):
+                kind = "POpenOnly"
+    if kind == "PUnknown":
+        unknown.append("SCSIDevice.execute: unrecognised replug prologue")
+    # _is_replugged: ino = get_inode(self._file_name); return ino != self._ino
+    cmp_ne = False
+    ir = fns.get("_is_replugged")
+    if ir:
+        b = body_of(ir)
+        if len(b) == 2 and isinstance(b[0], ast.Assign) and isinstance(b[0].value, ast.Call) and dotted(b[0].value.func) == "get_inode" \
+                and dotted(b[0].value.args[0]) == "self._file_name" and isinstance(b[1], ast.Return) and isinstance(b[1].value, ast.Compare) \
+                and len(b[1].value.ops) == 1 and isinstance(b[1].value.ops[0], ast.NotEq):
+            names = {dotted(b[1].value.left), dotted(b[1].value.comparators[0])}
+            cmp_ne = names == {b[0].targets[0].id, "self._ino"}
+    if not cmp_ne:
+        unknown.append("SCSIDevice._is_replugged: unrecognised shape")
+    # open: self._file = open(self._file_name, ...); self._ino = get_inode(self._file_name)
+    open_ok = False
+    op = fns.get("open")
+    if op:
+        b = body_of(op)
+        open_ok = (len(b) == 2 and isinstance(b[0], ast.Assign) and dotted(b[0].targets[0]) == "self._file"
+                   and isinstance(b[0].value, ast.Call) and dotted(b[0].value.func) == "open"
+                   and dotted(b[0].value.args[0]) == "self._file_name"
+                   and isinstance(b[1], ast.Assign) and dotted(b[1].targets[0]) == "self._ino"
+                   and isinstance(b[1].value, ast.Call) and dotted(b[1].value.func) == "get_inode")
+    if not open_ok:
+        unknown.append("SCSIDevice.open: unrecognised shape")
+    close_ok = False
+    cl = fns.get("close")
+    if cl:
+        b = body_of(cl)
+        close_ok = len(b) == 1 and is_call(b[0], "self._file.close")
+    if not close_ok:
+        unknown.append("SCSIDevice.close: unrecognised shape")
+    exit_ok = False
+    xt = fns.get("__exit__")
+    if xt:
+        b = body_of(xt)
+        exit_ok = len(b) == 1 and is_call(b[0], "self.close")
+    if not exit_ok:
+        unknown.append("SCSIDevice.__exit__: unrecognised shape")
+    lines.append("Definition replug_prologue : prologue := %s.\n" % kind)
+    lines.append("Definition replug_shapes_ok : bool := %s.\n" % ("true" if (cmp_ne and open_ok and close_ok and exit_ok) else "false"))
+    info.update(kind=kind, cmp_ne=cmp_ne, open_ok=open_ok, close_ok=close_ok, exit_ok=exit_ok)
+    return lines, unknown, info
+
+
+def prefix_test(t, var):
+    """`var[:n] == "lit"`  ->  (n, lit)"""
+    from translate import const_int
+    if isinstance(t, ast.Compare) and len(t.ops) == 1 and isinstance(t.ops[0], ast.Eq) and isinstance(t.left, ast.Subscript) \
+            and isinstance(t.left.value, ast.Name) and t.left.value.id == var and isinstance(t.left.slice, ast.Slice) \
+            and t.left.slice.lower is None and t.left.slice.step is None and isinstance(t.comparators[0], ast.Constant) \
+            and isinstance(t.comparators[0].value, str):
+        n = const_int(t.left.slice.upper)
+        if n is not None and n >= 0:
+            return n, t.comparators[0].value
+    return None
+
+
+def init_device_tables(mods):
+    from translate import coq_str, src_of
+    lines, unknown, info = [], [], {}
+    umod = next(m for m in mods if m.rel.endswith("utils/__init__.py"))
+    fn = next((n for n in umod.tree.body if isinstance(n, ast.FunctionDef) and n.name == "init_device"), None)
+    rows, final_raises = [], False
+    if fn is None:
+        unknown.append("init_device not found")
+    else:
+        devv = fn.args.args[0].arg
+        body = [st for st in fn.body if not (isinstance(st, ast.Expr) and isinstance(st.value, ast.Constant))]
+        if len(body) == 2 and isinstance(body[0], ast.If) and isinstance(body[1], ast.Return):
+            node = body[0]
+            while True:
+                pt = prefix_test(node.test, devv)
+                cls_name, args = None, None
+                for st in node.body:
+                    if isinstance(st, ast.Assign) and isinstance(st.value, ast.Call) and isinstance(st.value.func, ast.Name) \
+                            and all(isinstance(a, ast.Name) for a in st.value.args) and not st.value.keywords:
+                        cls_name, args = st.value.func.id, [a.id for a in st.value.args]
+                    elif isinstance(st, ast.ImportFrom):
+                        pass
+                    else:
+                        pt = None
+                if pt is None or cls_name is None or args[:1] != [devv]:
+                    unknown.append("init_device branch: " + src_of(node.test, umod.text))
+                else:
+                    rows.append("(%d%%nat, %s, %s)" % (pt[0], coq_str(pt[1]), coq_str(cls_name)))
+                if len(node.orelse) == 1 and isinstance(node.orelse[0], ast.If):
+                    node = node.orelse[0]
+                    continue
+                if len(node.orelse) == 1 and isinstance(node.orelse[0], ast.Raise) and isinstance(node.orelse[0].exc, ast.Call) \
+                        and dotted(node.orelse[0].exc.func) == "NotImplementedError":
+                    final_raises = True
+                break
+        else:
+            unknown.append("init_device: unrecognised shape")
+    lines.append("Definition init_device_rows : list (nat * string * string) := [%s].\n" % "; ".join(rows))
+    lines.append("Definition init_device_else_raises : bool := %s.\n" % ("true" if final_raises else "false"))
+    # device class guards:  if _has_X and device[:n] == "lit": self.open(...) else: raise NotImplementedError(...)
+    for stem, cname, flag, dname in (("scsi_device", "SCSIDevice", "_has_sgio", "scsi_device_guard"),
+                                     ("iscsi_device", "ISCSIDevice", "_has_iscsi", "iscsi_device_guard")):
+        mod = next(m for m in mods if m.stem == stem)
+        cls = next((n for n in mod.tree.body if isinstance(n, ast.ClassDef) and n.name == cname), None)
+        init = next((f for f in cls.body if isinstance(f, ast.FunctionDef) and f.name == "__init__"), None) if cls else None
+        g = None
+        if init is not None:
+            devv = init.args.args[1].arg
+            last = init.body[-1]
+            if isinstance(last, ast.If) and isinstance(last.test, ast.BoolOp) and isinstance(last.test.op, ast.And) \
+                    and len(last.test.values) == 2 and isinstance(last.test.values[0], ast.Name) and last.test.values[0].id == flag:
+                pt = prefix_test(last.test.values[1], devv)
+                opens = len(last.body) == 1 and isinstance(last.body[0], ast.Expr) and isinstance(last.body[0].value, ast.Call) \
+                    and dotted(last.body[0].value.func) == "self.open"
+                raises = len(last.orelse) == 1 and isinstance(last.orelse[0], ast.Raise) and isinstance(last.orelse[0].exc, ast.Call) \
+                    and dotted(last.orelse[0].exc.func) == "NotImplementedError"
+                # nothing before the guard may open a file or a connection
+                early = any(isinstance(c, ast.Call) and (dotted(c.func) or "").split(".")[-1] in ("open", "connect", "Context", "URL")
+                            for st in init.body[:-1] for c in ast.walk(st))
+                if pt and opens and raises and not early:
+                    g = pt
+            # the flag is set by  try: import X; flag = True  except ImportError: flag = False
+            ok_flag = False
+            for node in mod.tree.body:
+                if isinstance(node, ast.Try) and len(node.handlers) == 1 and dotted(node.handlers[0].type) == "ImportError":
+                    sets_true = any(isinstance(b, ast.Assign) and dotted(b.targets[0]) == flag and isinstance(b.value, ast.Constant)
+                                    and b.value.value is True for b in node.body)
+                    sets_false = any(isinstance(b, ast.Assign) and dotted(b.targets[0]) == flag and isinstance(b.value, ast.Constant)
+                                     and b.value.value is False for b in node.handlers[0].body)
+                    imports = any(isinstance(b, ast.Import) for b in node.body)
+                    ok_flag = sets_true and sets_false and imports
+            if not ok_flag:
+                g = None
+        if g is None:
+            unknown.append("%s.__init__: unrecognised guard" % cname)
+            lines.append("Definition %s : option (nat * string) := None.\n" % dname)
+        else:
+            lines.append("Definition %s : option (nat * string) := Some (%d%%nat, %s).\n" % (dname, g[0], coq_str(g[1])))
+        info[dname] = g
+    info["rows"] = rows
+    return lines, unknown, info
 
 
 def sense_class(mods):
